@@ -402,7 +402,9 @@ func runC11Phase(rec *vkit.Recorder, c *c11Case, spec *Spec, st *c11State) (vs [
 			if !reflect.DeepEqual(ah, bh) && specs[i].Auth.Kind != "" {
 				k = "C11/secret-lost/" + secretKey(name, &specs[i].Auth)
 			}
-			add(k, "%s[%d] differs: credentials in the generated file %+v, original %+v", name, i, bh, ah)
+			ja, _ := json.Marshal(a)
+			jb, _ := json.Marshal(b)
+			add(k, "%s[%d] differs: credentials in the generated file %+v, original %+v; entry in the generated file %s, original %s", name, i, bh, ah, jb, ja)
 		}
 	}
 	if len(orig.RemoteWriteConfigs) != len(gen.RemoteWriteConfigs) {
